@@ -59,7 +59,11 @@ class HeapRewriter:
             return t.get_id() in self.fresh and e is not None and e < ev
         n = t.decl().name()
         if n.startswith("A_") and t.num_args() == 1:
-            return self.existed_before(t.arg(0), ev, depth + 1)
+            u = t.arg(0)
+            if z3.is_const(u) and not self.entry(u):
+                # an object allocated in this function: its constructor may store objects allocated AFTER it
+                return False
+            return self.existed_before(u, ev, depth + 1)
         if z3.is_app_of(t, z3.Z3_OP_ITE):
             return self.existed_before(t.arg(1), ev, depth + 1) and self.existed_before(t.arg(2), ev, depth + 1)
         if z3.is_select(t) and t.sort() == smt.V:
